@@ -17,7 +17,7 @@
 From Coq Require Import Reals List ZArith Bool Lra Lia.
 From Flocq Require Import Raux.
 From Alpaqa Require Import Num NumR Vec Prox ProxProofs ProxVec QpBound SolverStatus SolverKernels DescentProofs StopChain StopChainProofs
-                           Panoc PanocProofs LiveVec PanocLive PanocLiveN ZeroFpr ZeroFprProofs ZeroFprLive.
+                           Panoc PanocProofs LiveVec PanocLive PanocLiveN PanocLiveKkt QpLive ZeroFpr ZeroFprProofs ZeroFprLive.
 Import ListNotations.
 Local Open Scope R_scope.
 
@@ -153,6 +153,144 @@ End C02_PANOC_LIVE.
 Print Assumptions C02_panoc_returns_converged.
 Print Assumptions C02_panoc_returns_converged_explicit_N.
 Print Assumptions C02_panoc_converged_point.
+
+(* the DEFAULT criterion ApproxKKT: ε = ‖p/γ + ∇ψ(x) - ∇ψ(x̂)‖∞; additionally ∇ψ Lipschitz (2-norm) with constant Lg *)
+Section C02_PANOC_LIVE_KKT.
+  Variable psi_grad_full : list R -> R * list R * list R.
+  Variable psi_yhat : list R -> R * list R.
+  Variable grad_L : list R -> list R -> list R.
+  Variable grad_psi : list R -> list R.
+  Variables (lb ub : list (option R)).
+  Variable dir_apply : nat -> iterate (T:=R) -> option (list R).   (* ARBITRARY *)
+  Variable has_initial : bool.
+  Variable P : params (T:=R).
+  Variables (x_in y_in Σ errz_in : list R).
+  Variable ls_fuel : nat.
+  Variables (ψ : list R -> R) (g : list R -> list R) (n : nat) (Lf ψinf Lg : R).
+
+  Notation never := (fun _ : counters => false).
+  Notation run := (panoc psi_grad_full psi_yhat grad_L grad_psi lb ub [] dir_apply has_initial never never P x_in y_in Σ errz_in ls_fuel).
+  Notation Linit := (L_init psi_grad_full grad_psi P x_in).
+
+  Hypothesis oracle_values : forall x, psi_grad psi_grad_full x = (ψ x, g x).
+  Hypothesis oracles_coherent : coherent psi_grad_full psi_yhat grad_L P.
+  Hypothesis grad_length : forall x, length x = n -> length (g x) = n.
+  Hypothesis quadratic_upper_bound : forall u d, length u = n -> length d = n ->
+    ψ (vadd u d) <= ψ u + vdot (g u) d + Lf / 2 * vsqnorm d.
+  Hypothesis gradient_lipschitz : forall u d, length u = n -> length d = n ->
+    vsqnorm (vsub (g u) (g (vadd u d))) <= Lg * Lg * vsqnorm d.
+  Hypothesis Lg_nonneg : 0 <= Lg.
+  Hypothesis bounded_below_on_C : forall z, all_in_box lb ub z -> ψinf <= ψ z.
+  Hypothesis len_lb : length lb = n.
+  Hypothesis len_ub : length ub = n.
+  Hypothesis boxes_nonempty : Forall2 box_ne lb ub.
+  Hypothesis len_x : length x_in = n.
+  Hypothesis direction_dimension : forall j i q, dir_apply j i = Some q -> length q = n.
+  Hypothesis Lgamma_factor : 0 < p_Lgamma P < 1.
+  Hypothesis L_init_positive : 0 < Linit.
+  Hypothesis Lf_below_L_max : Lf <= p_Lmax P.
+  Hypothesis qub_tolerance_factor_zero : p_qub_tol P = 0.
+  Hypothesis linesearch_tolerance_factor_zero : p_ls_tol P = 0.
+  Hypothesis strictness_factor : 0 < p_beta P <= 1.
+  Hypothesis force_linesearch_off : p_force_ls P = false.
+  Hypothesis criterion : p_crit P = ApproxKKT.
+  Variables (nL nT : nat).
+  Hypothesis L_max_reached : p_Lmax P <= Linit * 2 ^ nL.
+  Hypothesis tau_factor : 0 <= p_tau_factor P <= 1.
+  Hypothesis tau_min_reached : p_tau_factor P ^ nT < p_tau_min P.
+  Hypothesis linesearch_fuel : (ls_pass_bound nL nT <= ls_fuel)%nat.
+
+  (* dec_kkt = cmin·δ², δ = tol / (1/γmin + Lg) *)
+  Notation Dec := (dec_kkt psi_grad_full grad_psi P x_in Lf Lg).
+  Notation PHI0 := (Phi0 psi_grad_full grad_psi lb ub P x_in ψ g Lf).
+
+  Theorem C02_panoc_returns_converged_ApproxKKT : forall (N fuel : nat),
+    PHI0 - ψinf < INR N * Dec -> (N <= p_max_iter P)%nat -> (N < fuel)%nat ->
+    exists o, run fuel = Done o /\ out_status o = StConverged /\ (out_iterations o < N)%nat.
+  Proof.
+    exact (panoc_live_kkt psi_grad_full psi_yhat grad_L grad_psi lb ub dir_apply has_initial P x_in y_in Σ errz_in ls_fuel ψ g n Lf ψinf Lg
+             oracle_values oracles_coherent grad_length quadratic_upper_bound gradient_lipschitz Lg_nonneg bounded_below_on_C len_lb len_ub
+             boxes_nonempty len_x direction_dimension Lgamma_factor L_init_positive Lf_below_L_max qub_tolerance_factor_zero
+             linesearch_tolerance_factor_zero strictness_factor force_linesearch_off criterion nL nT L_max_reached tau_factor tau_min_reached
+             linesearch_fuel).
+  Qed.
+End C02_PANOC_LIVE_KKT.
+Print Assumptions C02_panoc_returns_converged_ApproxKKT.
+
+(* C02 END TO END for PANOC stand-alone on a box-constrained strongly convex QP (∇ψ(x) = Qx + c, m = 0), default criterion ApproxKKT:
+   the run returns Converged within N iterations AND the returned point satisfies the property's inequality
+        μ ‖x̂ - x*‖² <= tol ‖x̂ - x*‖₁          (liveness + C01's contract + C02_qp_error_bound).
+   The smoothness hypotheses on ψ hold for a QP with Lf, Lg >= ‖Q‖₂ (they are kept as hypotheses: Q enters only through Qmul). *)
+Section C02_PANOC_QP.
+  Variable psi_grad_full : list R -> R * list R * list R.
+  Variable psi_yhat : list R -> R * list R.
+  Variable grad_L : list R -> list R -> list R.
+  Variable grad_psi : list R -> list R.
+  Variables (lb ub : list (option R)).
+  Variable dir_apply : nat -> iterate (T:=R) -> option (list R).   (* ARBITRARY *)
+  Variable has_initial : bool.
+  Variable P : params (T:=R).
+  Variables (x_in y_in Σ errz_in : list R).
+  Variable ls_fuel : nat.
+  Variables (ψ : list R -> R) (g : list R -> list R) (n : nat) (Lf ψinf Lg : R).
+  Variables (Qmul : list R -> list R) (c : list R) (μ : R) (xs rs : list R).
+
+  Notation never := (fun _ : counters => false).
+  Notation run := (panoc psi_grad_full psi_yhat grad_L grad_psi lb ub [] dir_apply has_initial never never P x_in y_in Σ errz_in ls_fuel).
+  Notation Linit := (L_init psi_grad_full grad_psi P x_in).
+
+  Hypothesis gradient_of_qp : forall x, length x = n -> g x = vplus (Qmul x) c.
+  Hypothesis Q_length : forall x, length x = n -> length (Qmul x) = n.
+  Hypothesis c_length : length c = n.
+  Hypothesis xs_rs_length : length xs = n /\ length rs = n.
+  Hypothesis strongly_convex : forall x, length x = n -> μ_ok μ Qmul x xs.
+  Hypothesis exact_kkt_stationarity : vplus (Qmul xs) c = map Ropp rs.
+  Hypothesis exact_kkt_C : in_boxv lb ub xs /\ in_ncone lb ub xs rs.
+  Hypothesis oracle_values : forall x, psi_grad psi_grad_full x = (ψ x, g x).
+  Hypothesis oracles_coherent : coherent psi_grad_full psi_yhat grad_L P.
+  Hypothesis grad_length : forall x, length x = n -> length (g x) = n.
+  Hypothesis quadratic_upper_bound : forall u d, length u = n -> length d = n ->
+    ψ (vadd u d) <= ψ u + vdot (g u) d + Lf / 2 * vsqnorm d.
+  Hypothesis gradient_lipschitz : forall u d, length u = n -> length d = n ->
+    vsqnorm (vsub (g u) (g (vadd u d))) <= Lg * Lg * vsqnorm d.
+  Hypothesis Lg_nonneg : 0 <= Lg.
+  Hypothesis bounded_below_on_C : forall z, all_in_box lb ub z -> ψinf <= ψ z.
+  Hypothesis len_lb : length lb = n.
+  Hypothesis len_ub : length ub = n.
+  Hypothesis boxes_nonempty : Forall2 box_ne lb ub.
+  Hypothesis len_x : length x_in = n.
+  Hypothesis direction_dimension : forall j i q, dir_apply j i = Some q -> length q = n.
+  Hypothesis Lgamma_factor : 0 < p_Lgamma P < 1.
+  Hypothesis L_init_positive : 0 < Linit.
+  Hypothesis Lf_below_L_max : Lf <= p_Lmax P.
+  Hypothesis qub_tolerance_factor_zero : p_qub_tol P = 0.
+  Hypothesis linesearch_tolerance_factor_zero : p_ls_tol P = 0.
+  Hypothesis strictness_factor : 0 < p_beta P <= 1.
+  Hypothesis force_linesearch_off : p_force_ls P = false.
+  Hypothesis criterion : p_crit P = ApproxKKT.
+  Variables (nL nT : nat).
+  Hypothesis L_max_reached : p_Lmax P <= Linit * 2 ^ nL.
+  Hypothesis tau_factor : 0 <= p_tau_factor P <= 1.
+  Hypothesis tau_min_reached : p_tau_factor P ^ nT < p_tau_min P.
+  Hypothesis linesearch_fuel : (ls_pass_bound nL nT <= ls_fuel)%nat.
+
+  Notation Dec := (dec_kkt psi_grad_full grad_psi P x_in Lf Lg).
+  Notation PHI0 := (Phi0 psi_grad_full grad_psi lb ub P x_in ψ g Lf).
+
+  Theorem C02_panoc_qp_converges_near_minimiser : forall (N fuel : nat),
+    PHI0 - ψinf < INR N * Dec -> (N <= p_max_iter P)%nat -> (N < fuel)%nat ->
+    exists o, run fuel = Done o /\ out_status o = StConverged /\ (out_iterations o < N)%nat /\
+      μ * dot (vminus (out_x o) xs) (vminus (out_x o) xs) <= eff_tol (o_tol P) * norm1 (vminus (out_x o) xs).
+  Proof.
+    exact (panoc_qp_converges_near_minimiser psi_grad_full psi_yhat grad_L grad_psi lb ub dir_apply has_initial P x_in y_in Σ errz_in ls_fuel
+             ψ g n Lf ψinf Lg Qmul c μ xs rs gradient_of_qp Q_length c_length xs_rs_length strongly_convex exact_kkt_stationarity exact_kkt_C
+             oracle_values oracles_coherent grad_length quadratic_upper_bound gradient_lipschitz Lg_nonneg bounded_below_on_C len_lb len_ub
+             boxes_nonempty len_x direction_dimension Lgamma_factor L_init_positive Lf_below_L_max qub_tolerance_factor_zero
+             linesearch_tolerance_factor_zero strictness_factor force_linesearch_off criterion nL nT L_max_reached tau_factor tau_min_reached
+             linesearch_fuel).
+  Qed.
+End C02_PANOC_QP.
+Print Assumptions C02_panoc_qp_converges_near_minimiser.
 
 Section C02_ZEROFPR_LIVE.
   Variable psi_grad_full : list R -> R * list R * list R.
@@ -299,6 +437,68 @@ Proof.
     destruct (Rlt_bool_spec 0 1) as [_|H]; [|lra].
     replace (Rmax 1 (2 * 1)) with 2 by (unfold Rmax; destruct (Rle_dec 1 (2 * 1)); lra).
     unfold lv_ψ, proj_grad_step. cbn. lra.
+  - cbn. lia.
+  - lia.
+Qed.
+
+(* non-vacuity of the end-to-end QP theorem (and of the ApproxKKT liveness theorem): min x²/2 on [-1, 2] from x_in = 1 (Q = 1, c = 0,
+   μ = Lf = Lg = 1, x* = 0 interior, rs = 0), ApproxKKT with tolerance 1:  δ = 1/5, dec = 1/50, Φ0 = 3/8, N = 19 *)
+Definition lv_Pk : params (T:=R) := mkParams 100 10 1 (1/1000000) (1/1000000) (1/2) 1 4 ApproxKKT 0 0 1 (1/2) (1/4) false false false false true 1.
+Example C02_qp_end_to_end_nonvacuous : forall (dir_apply : nat -> iterate (T:=R) -> option (list R)) (has_initial : bool),
+  (forall j i q, dir_apply j i = Some q -> length q = 1%nat) ->
+  exists o, panoc (T:=R) (fun x => (lv_ψ x, x, [])) (fun x => (lv_ψ x, [])) (fun x _ => x) (fun x => x) [Some (-1)] [Some 2] []
+                  dir_apply has_initial (fun _ => false) (fun _ => false) lv_Pk [1] [] [] [] 18 20 = Done o /\
+            out_status o = StConverged /\ (out_iterations o < 19)%nat /\
+            1 * dot (vminus (out_x o) [0]) (vminus (out_x o) [0]) <= eff_tol (o_tol lv_Pk) * norm1 (vminus (out_x o) [0]).
+Proof.
+  intros dir_apply has_initial Hdir.
+  assert (HL : L_init (fun x => (lv_ψ x, x, [])) (fun x => x) lv_Pk [1] = 1).
+  { unfold L_init, init_L, lv_Pk. cbn [p_L0]. change (@nleb R NumR 1 (@n0 R NumR)) with (Rle_bool 1 0).
+    destruct (Rle_bool_spec 1 0) as [H|_]; [lra|]. reflexivity. }
+  assert (Htol : eff_tol (o_tol lv_Pk) = 1).
+  { unfold eff_tol. cbn [lv_Pk o_tol]. change (@nltb R NumR (@n0 R NumR) 1) with (Rlt_bool 0 1).
+    destruct (Rlt_bool_spec 0 1) as [_|H]; [reflexivity|lra]. }
+  apply (C02_panoc_qp_converges_near_minimiser (fun x => (lv_ψ x, x, [])) (fun x => (lv_ψ x, [])) (fun x _ => x) (fun x => x)
+           [Some (-1)] [Some 2] dir_apply has_initial lv_Pk [1] [] [] [] 18 lv_ψ (fun x => x) 1 1 0 1 (fun x => x) [0] 1 [0] [0])
+    with (nL := 2%nat) (nT := 3%nat).
+  - intros [|a [|? ?]]; cbn [length]; intros; try discriminate. cbn. f_equal. lra.
+  - intros x Hx. exact Hx.
+  - reflexivity.
+  - split; reflexivity.
+  - intros [|a [|? ?]]; cbn [length]; intros; try discriminate. unfold μ_ok, dot, vminus. cbn. lra.
+  - cbn. f_equal. lra.
+  - unfold in_boxv, in_ncone. cbn [combine]. split; (apply Forall2_cons; [|apply Forall2_nil]).
+    + unfold in_box, lb_ok, ub_ok. cbn. lra.
+    + cbn. intros; lra.
+  - intros x. reflexivity.
+  - intros x. reflexivity.
+  - intros x Hx. exact Hx.
+  - intros [|a [|? ?]] [|b [|? ?]]; cbn [length]; intros; try discriminate. unfold lv_ψ. cbn. lra.
+  - intros [|a [|? ?]] [|b [|? ?]]; cbn [length]; intros; try discriminate. cbn. nra.
+  - lra.
+  - intros z _. unfold lv_ψ. pose proof (vsqnorm_nonneg z). lra.
+  - reflexivity.
+  - reflexivity.
+  - repeat constructor. cbn. lra.
+  - reflexivity.
+  - exact Hdir.
+  - cbn. lra.
+  - rewrite HL. lra.
+  - cbn. lra.
+  - reflexivity.
+  - reflexivity.
+  - cbn. lra.
+  - reflexivity.
+  - reflexivity.
+  - rewrite HL. cbn. lra.
+  - cbn. lra.
+  - cbn. lra.
+  - cbn. lia.
+  - unfold Phi0. unfold dec_kkt, delta_kkt, cmin, gam0, gam_min, Lbar, tol. rewrite HL, Htol.
+    cbn [lv_Pk p_beta p_Lgamma].
+    replace (Rmax 1 (2 * 1)) with 2 by (unfold Rmax; destruct (Rle_dec 1 (2 * 1)); lra).
+    unfold lv_ψ, proj_grad_step. cbn. numR. rbool; try lra.
+    all: replace (INR 19) with 19 by (simpl; lra); lra.
   - cbn. lia.
   - lia.
 Qed.
